@@ -24,6 +24,10 @@
    longer declines them); a bit given by several nets holds the pins of all of them and nothing
    moves ([C05_multibit_assemble_all] without NoDup, [nets_ok] no longer asks for different
    indices, the old refutation witness is the positive [C05_duplicate_bit_document_read]).
+   Repaired K4: bit identifiers starting with "&_" are bits like any others ([C05_bit_ident_exact] is
+   unconditional, [C05_bitname_inverse] / [C05_bus_read] lose the identifier side condition,
+   [C05_amp_bits_merged] is the former witness). Still open on the bit-net side: K9 (names starting
+   with a backslash: [name_ok]), K10, K13 ([nets_ok]).
    Repaired reader defects (K14, K15, K16), now positive statements: an instance without viewRef and an
    array port of size < 1 are refused ([C05_instances_referenced_ports_nonempty], examples
    [C05_bare_instance_rejected], [C05_array_size_zero_rejected]); everything after the design construct
